@@ -2,6 +2,8 @@ package main
 
 import (
 	"context"
+	"encoding/json"
+	"regexp"
 	"sync"
 	"flag"
 	"fmt"
@@ -147,6 +149,8 @@ func main() {
 		cmdCheck(os.Args[2:])
 	case "sweep":
 		cmdSweep(os.Args[2:])
+	case "replay":
+		cmdReplay(os.Args[2:])
 	default:
 		fmt.Println("unknown command", os.Args[1])
 		os.Exit(2)
@@ -348,5 +352,53 @@ func cmdSweep(args []string) {
 		} else {
 			fmt.Printf("// not safe without a contract: %s (%s)\n", j.it.key, j.why)
 		}
+	}
+}
+
+// cmdReplay re-runs the replay recorded in a violation file against /repo's current tree.
+func cmdReplay(args []string) {
+	if len(args) < 1 {
+		fmt.Println("usage: govc replay <replay.json>")
+		os.Exit(2)
+	}
+	b, err := os.ReadFile(args[0])
+	if err != nil {
+		fmt.Println(err)
+		os.Exit(2)
+	}
+	var rec map[string]any
+	if err := json.Unmarshal(b, &rec); err != nil {
+		fmt.Println(err)
+		os.Exit(2)
+	}
+	fmt.Printf("obligation: %v\nproperty: %v\nstatus: %v (%v)\n", rec["obligation"], rec["property"], rec["status"], rec["solver"])
+	if c, ok := rec["clause"]; ok && c != "" {
+		fmt.Printf("clause: %v\n", c)
+	}
+	body, ok := rec["replay_test"].(string)
+	if !ok || body == "" {
+		fmt.Println("no replayable input was recorded for this obligation (no-failing-input-found); solver output / offending sites:")
+		for _, k := range []string{"solver_output", "detail", "sites", "reason", "failing_input", "replay_note"} {
+			if v, ok := rec[k]; ok {
+				fmt.Printf("%s: %v\n", k, v)
+			}
+		}
+		os.Exit(1)
+	}
+	w, err := loadWorld("/repo")
+	if err != nil {
+		fmt.Println("LOAD ERROR:", err)
+		os.Exit(2)
+	}
+	name := "VerifReplayAgain"
+	body = regexp.MustCompile(`VERIF-RESULT VerifReplay[0-9]+`).ReplaceAllString(body, "VERIF-RESULT "+name)
+	verd, out := runOverlayTests(w, []overlayTest{{Name: name, Body: body}}, "/verif/out/replay_again")
+	v := verd[name]
+	fmt.Printf("inputs: %v\nverdict on the current tree: %s\n", rec["replay_inputs"], v)
+	if v == "error" {
+		fmt.Println(firstLines(out, 30))
+	}
+	if v == "fail" || v == "panic" || v == "overflow" {
+		os.Exit(1)
 	}
 }
